@@ -1636,13 +1636,15 @@ class Project:
         if not os.path.exists(path):
             raise LookupError(f"Path does not exist: '{path}'.")
 
-        # Find the last match instance of a job id
-        results = list(re.finditer(JOB_ID_REGEX, path))
-        if len(results) == 0:
+        # Find the last path component that is a job id
+        components = path.split(os.sep)
+        indices = [
+            i for i, name in enumerate(components) if JOB_ID_REGEX.fullmatch(name)
+        ]
+        if len(indices) == 0:
             raise LookupError(f"Could not find a job id in path '{path}'.")
-        match = results[-1]
-        job_id = match.group(0)
-        job_path = path[: match.end()]
+        job_id = components[indices[-1]]
+        job_path = os.sep.join(components[: indices[-1] + 1])
 
         # Find a project *above* the path (avoid finding nested projects)
         project = cls.get_project(os.path.join(job_path, os.pardir))
